@@ -66,9 +66,18 @@ def main(argv=None) -> int:
 
                 st = run_selftest(prop, mod, ctx)
             r = finish(ctx, mod.EXPLANATION, selftest=st)
-            if r == 0 and st is not None and st.get("failed"):
-                print(f"ANALYSIS-ERROR property={prop} self-test: {st['failed']} variant(s) misjudged: {st['failures'][:5]}")
-                r = 2
+            if st is not None and st.get("failed"):
+                # the checker's own variants (hand-written, computed, fix-regression, sweep) are strict: a misjudged one means the rule no
+                # longer does what DESIGN says and the run ends as exit 2. A stored corpus entry (seeded/ x EXPECTED.json, neutral/) judged
+                # differently from its recorded cell is DRIFT: it says how the checker reads another program, not what it found in /repo --
+                # it is printed and recorded in the evidence (coverage.selftest.failures), and does not change the verdict on the tree.
+                strict = [f for f in st["failures"] if not f.startswith(("seed-", "neutral-"))]
+                drift = [f for f in st["failures"] if f.startswith(("seed-", "neutral-"))]
+                if drift:
+                    print(f"SELFTEST-DRIFT property={prop} {len(drift)} stored change(s) judged differently from the recorded matrix: {drift[:5]}")
+                if r == 0 and strict:
+                    print(f"ANALYSIS-ERROR property={prop} self-test: {len(strict)} variant(s) misjudged: {strict[:5]}")
+                    r = 2
             rc = max(rc, r) if r != 1 else 1 if rc != 1 else 1
             if r == 1:
                 rc = 1
